@@ -41,7 +41,8 @@ def pick_severity(I, name):
 
 
 def run_process(task):
-    shape, order, want_sample = task        # shape: violations per file, e.g. (2, 1)
+    shape, order, want_sample = task[:3]    # shape: violations per file, e.g. (2, 1)
+    twin = task[3] if len(task) > 3 else False      # every violation of a file carries the same code (and range)
     prog = driver.load_program()
     stats = PathStats()
     lst = prog.fns.get('process_violations')
@@ -62,7 +63,7 @@ def run_process(task):
             for _ in range(nv):
                 s = pick_severity(I, 'sev%d' % vid)
                 sevs[vid] = (fi, s)
-                vs.append(mk_violation(prog, I, vid, s))
+                vs.append(mk_violation(prog, I, vid, s, 'same' if twin else None))
                 vid += 1
             ents.append(Tuple(new_string(I, b'f%d.py' % fi), VecVal(vs)))
         holder['sevs'] = sevs
@@ -89,7 +90,7 @@ def run_process(task):
         if role in roles:
             return
         roles.add(role)
-        out['violations'].append(dict(role=role, summary=summary, shape=list(shape), order=list(order),
+        out['violations'].append(dict(role=role, summary=summary, shape=list(shape), order=list(order), twin=twin,
                                       severities=[[fi, s] for fi, s in holder['sevs'].values()]))
 
     for I, pk, val in explore(prog, models.M, run_path, stats=stats, max_paths=100000):
@@ -121,16 +122,18 @@ def run_process(task):
                     if diag is None:
                         viol('report-entry-opaque', 'unexpected report entry %r' % (jv,))
                         continue
-                    code = bytes(as_sstr(I, get_field(prog, diag, 'SimpleDiagnostic', 'code')).b).decode()
+                    code = bytes(as_sstr(I, get_field(prog, diag, 'SimpleDiagnostic', 'message')).b).decode()
                     sev = get_field(prog, diag, 'SimpleDiagnostic', 'severity')
                     seen.setdefault(code, []).append((fname, sev.vname))
             for vid, (fi, s) in sevs.items():
-                got = seen.get('v%d' % vid, [])
+                got = seen.get('m%d' % vid, [])
                 if got != [('f%d.py' % fi, s)]:
                     viol('report-does-not-match-violations', 'violation v%d (%s in f%d.py) appears as %s' % (vid, s, fi, got))
             if len(seen) != len(sevs):
                 viol('report-does-not-match-violations', 'report has %d diagnostics for %d violations' % (len(seen), len(sevs)))
         out['cover']['exit1' if want_exit else 'exit0'] = out['cover'].get('exit1' if want_exit else 'exit0', 0) + 1
+        if twin:
+            out['cover']['same code and range'] = 1
         if want_sample and len(out['samples']) < 2:
             out['samples'].append(dict(severities=[[fi, s] for fi, s in sevs.values()], exit=1 if got_exit else 0))
     out.update(Agg(PROP, 'x').stats_from(stats))
@@ -437,30 +440,38 @@ def confirm(binary, v, idx):
         by_file = {}
         for fi, s in v['severities']:
             by_file.setdefault(fi, []).append(s)
-        files = {}
-        for fi, ss in by_file.items():
-            body = ''
-            for k, s in enumerate(ss):
-                body += '# <block name="k%d" keep-sorted severity="%s">\nb\na\n# </block>\n' % (k, s.lower())
-            files['f%d.py' % fi] = body.encode()
         want = 1 if any(s == 'Error' for _f, s in v['severities']) else 0
-        # the real HashMap order changes from run to run: extra warning-only files (they do not change
-        # the expected status) and repeated runs make an order-dependent status show
-        for k in range(6):
-            files['w%d.py' % k] = b'# <block name="w" keep-sorted severity="warning">\nb\na\n# </block>\n'
         nexp = len(v['severities']) + 6
-        seen = []
-        for _ in range(10):
-            r = run_scan(binary, files, ['**'])
-            ndiag = sum(len(x) for x in (r['diags'] or {}).values())
-            seen.append((r['code'], ndiag))
-            if r['code'] != want or ndiag != nexp:
+        # layout A: one keep-sorted block per violation, one after the other; layout B: the blocks of a file
+        # nested around one duplicated line, so that their keep-unique violations share code and range
+        for layout in ('sequence', 'nested'):
+            files = {}
+            for fi, ss in by_file.items():
+                if layout == 'sequence':
+                    body = ''
+                    for k, s in enumerate(ss):
+                        body += '# <block name="k%d" keep-sorted severity="%s">\nb\na\n# </block>\n' % (k, s.lower())
+                else:
+                    body = ''.join('# <block name="k%d" keep-unique severity="%s">\n' % (k, s.lower()) for k, s in enumerate(ss))
+                    body += 'a\na\n' + '# </block>\n' * len(ss)
+                files['f%d.py' % fi] = body.encode()
+            # the real HashMap order changes from run to run: extra warning-only files (they do not change
+            # the expected status) and repeated runs make an order-dependent status show
+            for k in range(6):
+                files['w%d.py' % k] = b'# <block name="w" keep-sorted severity="warning">\nb\na\n# </block>\n'
+            seen = []
+            for _ in range(10):
+                r = run_scan(binary, files, ['**'])
+                ndiag = sum(len(x) for x in (r['diags'] or {}).values())
+                seen.append((r['code'], ndiag))
+                if r['code'] != want or ndiag != nexp:
+                    break
+            v['observed'] = dict(layout=layout, runs=seen)
+            if seen[-1][0] != want or seen[-1][1] != nexp:
+                v['confirmed'] = True
+                v['replay'] = save_replay(PROP, '%s-%d' % (v['role'], idx), files, "'**'",
+                                          'expected exit %d and %d diagnostics on every run (run it several times: the order of files varies); %s' % (want, nexp, v['summary']), v)
                 break
-        v['observed'] = dict(runs=seen)
-        if seen[-1][0] != want or seen[-1][1] != nexp:
-            v['confirmed'] = True
-            v['replay'] = save_replay(PROP, '%s-%d' % (v['role'], idx), files, "'**'",
-                                      'expected exit %d and %d diagnostics on every run (run it several times: the order of files varies); %s' % (want, nexp, v['summary']), v)
         return v
     if 'list_blocks' in v:
         # two blocks whose start tags share a line, one later block
@@ -562,6 +573,8 @@ def main(tier):
         n = len(sh)
         for o in itertools.permutations(range(max(n, 1))):
             tasks.append((sh, o, True))
+            if max(sh) >= 2:
+                tasks.append((sh, o, False, True))
     results = pmap(run_process, tasks)
     mtasks = []
     for nv, nf in b['merge']:
@@ -623,7 +636,7 @@ def main(tier):
                      'stderr, to_writer_pretty, write_fmt and process::exit are recording stubs'],
         stubs=['std::io::stderr / Stderr::lock', 'serde_json::to_writer_pretty (records its argument)', 'Write::write_fmt', 'process::exit (ends the path)',
                'ValidatorSync::validate for model validators in the merge harness'],
-        must_cover=['main', 'exit0', 'exit1', 'merge-ok', 'merge-err', 'merge-async', 'twin violations', 'two validators on one file', 'parsed', 'rejected', 'default', 'list'],
+        must_cover=['main', 'exit0', 'exit1', 'merge-ok', 'merge-err', 'merge-async', 'twin violations', 'same code and range', 'two validators on one file', 'parsed', 'rejected', 'default', 'list'],
         explanation='exit code and printed map compared with the severities chosen by the solver on every path; merged map compared with the union of the validators\' maps under several iteration orders')
 
 
